@@ -253,7 +253,7 @@ def w_shapes(idx):
     out, n, npairs = [], 0, 0
     for i in idx:
         e = G["SH"][i]
-        w = World.build(e["st"])
+        w = World.build(e["st"], text_of=G["SH_text_of"]) if G.get("SH_text_of") else World.build(e["st"])
         before = w.pi(ALLF)
         eq = {tuple(p) for p in e["eq"]}
         N = len(w.nodes)
